@@ -676,6 +676,8 @@ pub fn run(args: &[String]) -> i32 {
                 let content: String = fc["s"].as_array().map(|a| a.iter().filter_map(|x| x.as_str()).collect::<Vec<_>>().concat()).unwrap_or_default()
                     .replace("<MB>", "\u{e9}").replace("<AD>", "\u{661}");
                 if content.is_empty() || content != content.trim() || content.contains("\n-\n") || content.ends_with("\n-") { continue; }
+                // line ends are the text block's business there (it is written with CR LF and normalised before a field sees it)
+                if content.contains('\r') { continue; }
                 // a line that opens with a field marker starts a new field in a text block
                 if content.split('\n').skip(1).any(|l| l.starts_with(':')) { continue; }
                 let (mt, base, pos) = match hosts.get(&tag) { Some(h) => h.clone(), None => { embed_no_host.insert(tag); continue; } };
